@@ -147,6 +147,9 @@ type layout struct {
 	FinalNL         bool
 	Between         string
 	SwapAnnot       bool
+	// NoBlank: no empty line after a transaction / multi-line assertion (whatever follows
+	// comes directly after its last line; a parser that demands the empty line rejects it)
+	NoBlank bool
 }
 
 func renderLayout(ds []jr.Dir, l layout) string {
@@ -177,7 +180,9 @@ func renderLayout(ds []jr.Dir, l layout) string {
 				for _, bl := range d.Bals {
 					line(bl.Acc, bl.Qty, bl.Com)
 				}
-				b.WriteString(l.EOL)
+				if !l.NoBlank {
+					b.WriteString(l.EOL)
+				}
 			}
 		case jr.Trx:
 			acr := func() {
@@ -201,7 +206,9 @@ func renderLayout(ds []jr.Dir, l layout) string {
 			for _, bk := range d.Books {
 				line(bk.Credit, bk.Debit, bk.Qty, bk.Com)
 			}
-			b.WriteString(l.EOL)
+			if !l.NoBlank {
+				b.WriteString(l.EOL)
+			}
 		}
 	}
 	s := b.String()
@@ -243,7 +250,10 @@ func c08Layouts(full bool) []layout {
 				for _, fn := range []bool{true, false} {
 					for _, bt := range betweens {
 						for _, sw := range []bool{false, true} {
-							ls = append(ls, layout{sep, eol, tr, fn, bt, sw})
+							ls = append(ls, layout{sep, eol, tr, fn, bt, sw, false})
+							if bt != "\n" {
+								ls = append(ls, layout{sep, eol, tr, fn, bt, sw, true})
+							}
 						}
 					}
 				}
@@ -347,7 +357,14 @@ func c08Run(e *core.Env) {
 				case broken && (out.Exit == 0 || after != text):
 					e.Violation("C08:unparseable-file-modified", fmt.Sprintf("exit %d; file before %q after %q", out.Exit, text, after), c08Case{text}, nil)
 				case !broken:
-					fx, _, _ := parseText(text)
+					fx, perr, ppan := parseText(text)
+					if perr != nil || ppan != "" {
+						// a layout the parser rejects (no empty line after a block): the file must stay as it is
+						if out.Exit == 0 || after != text {
+							e.Violation("C08:unparseable-file-modified", fmt.Sprintf("exit %d; file before %q after %q", out.Exit, text, after), c08Case{text}, nil)
+						}
+						continue
+					}
 					want, _, _ := formatText(fx)
 					if out.Exit != 0 || after != want {
 						e.Violation("C08:command-differs-from-library", fmt.Sprintf("exit %d stderr %q; file %q, library %q", out.Exit, out.Stderr, after, want), c08Case{text}, nil)
